@@ -69,6 +69,9 @@ def jobs(tier):
         out.append({"name": "%s-%s" % (s, dk), "spec": spec(s, "min", domain_kind=dk), "agents": 2})
     out.append({"name": "pair-dom3", "spec": spec("pair", "min", dom={"x": 3, "y": 2}), "agents": 2})
     out.append({"name": "single-value-domain", "spec": spec("pair", "min", dom={"x": 1, "y": 2}), "agents": 1})
+    # two variables whose domains share a value at different positions ([0,1] and [1,2])
+    out.append({"name": "pair-shifted-domains", "spec": spec("pair", "min", domain_values={"y": [1, 2]}),
+                "agents": 1})
     out.append({"name": "agents-only", "spec": spec("unary", "min"), "agents": 2, "agents_focus": True})
     # loading of a hand-written agents section: global / per-agent default hosting costs, specific costs, key order,
     # default route and symmetric routes (forms that dcop_yaml never emits itself)
